@@ -43,7 +43,7 @@ var panicAllowed = map[string]string{
 	"(*tagBlockNode).Execute|panic":          "internal assertion ctx.template != nil; execution contexts are always created with a template",
 	"tagBlockParser|panic":                   "internal assertion doc.template != nil; document parsers always carry their template",
 	"(*LocalFilesystemLoader).Abs|panic":     "os.Getwd failure (process has no working directory): environment fault, not template input",
-	"Must|panic":                             "documented: Must panics on a compile error (start-up helper); Render* shortcuts use it by design and are not C01 observation points",
+	"Must|panic":                             "documented: Must panics on a compile error (start-up helper); nothing in the engine calls it",
 	"MustApplyFilter|panic":                  "documented API that panics on error; not used by the engine",
 	"NewSet|panic":                           "documented: a set needs at least one loader (configuration time)",
 	"MustNewLocalFileSystemLoader|log.Panic": "documented Must* constructor (configuration time)",
@@ -80,7 +80,8 @@ func ruleC01Panics(p *Prog, a *Anchors, r *Report) {
 						if _, isC := constString(x.Common().Args[0]); !isC {
 							what = n + "(non-constant)"
 						}
-					case (n == "Must" || n == "MustApplyFilter") && reach[f] && !strings.HasPrefix(fname, "(*TemplateSet).Render"):
+					case (n == "Must" || n == "MustApplyFilter") && reach[f]:
+						// (also in the Render* shortcuts: they have an error result to return a compile error in)
 						what = "call " + n
 					}
 				}
